@@ -67,6 +67,20 @@ theorem copy_result_mutation_frame {s : Sig} {args : List Obj} (h : Heap α) {b 
     have := (call_fresh h hfresh hw).1 w.1 (hws w hwm)
     exact Nat.not_le.mpr hlt (heq ▸ this)
 
+/-- the same for every cell that existed before the call — other charts, class-level defaults —, reachable from
+an argument or not: this is the form the harness evaluates after its mutation probes -/
+theorem copy_result_mutation_frame_all {s : Sig} {args : List Obj} (h : Heap α) {b : Beh α} (ws : List (Ref × α))
+    (hpure : s.writes = []) (hfresh : s.shares = [])
+    (hw : b.within s h.length args = true) (hws : ∀ w ∈ ws, w.1 ∈ b.ret) :
+    FrameHolds h (applyWrites (applyBeh h b) ws) (List.range h.length) := by
+  intro r hr
+  have hlt : r < h.length := by simpa using hr
+  rw [applyWrites_getElem?_of_not_written]
+  · exact call_frame_all h hpure hw r hlt
+  · intro w hwm heq
+    have := (call_fresh h hfresh hw).1 w.1 (hws w hwm)
+    exact Nat.not_le.mpr hlt (heq ▸ this)
+
 /-- **model satisfies spec, in the decidable form the harness evaluates on the implementation's observations**
 (`c14.check` computes exactly `frameB` / `freshB` on the snapshots taken around each real call). -/
 theorem call_spec_holds [DecidableEq α] {s : Sig} {args : List Obj} (h : Heap α) {b : Beh α}
